@@ -451,7 +451,7 @@ func c8loadKnown() map[string]string {
 
 func init() {
 	register("C08", "exploration", func(c *Ctx) {
-		c.Rule = "inputs: (a) the frozen corpus of the repository's .cue sources that parse, (b) mutants of corpus files under layout mutations that cannot change the token stream (blank lines, indentation, horizontal space where space already is, trailing spaces, explicit commas at line ends, CRLF) and comments in the admitted position classes (own line before a line, end of a line), 1-3 mutations each, (c) generated multi-line string/bytes literals (all quote forms, nesting depths, whitespace-only and over-indented lines), (d) programs of the C01 generator under the same mutations. Oracle: format.Source succeeds, its output parses, the normalised token streams of input and output are equal (commas dropped; string literals by class and unquoted value; interpolation parts modulo leading indentation; comments by text - every token and comment keeps its neighbours), and formatting the output again changes nothing. Second oracle on every input that passes the first: the syntax trees of input and output (parser with comments and resolution, internal/astinternal dump without positions, literals by class and value) are equal, so every comment is attached to the same node and every reference is bound to the same node. (e) -s (format.Simplify) on all streams and on generated programs in which quoted labels, identifiers, dynamic labels, lets and references of the same few names meet in nested scopes: the trees are equal after applying the documented simplifications (plain-identifier labels unquoted, `...`/`[string]: _`/`[_]: _` merged into one trailing `...`) to both, references still bind to the same nodes, -s is a fixpoint and plain fmt leaves its output alone, and a sample of input/output pairs is evaluated in worker processes and compared observationally. Non-trivial = distinct input with a comment or a multi-line literal."
+		c.Rule = "inputs: (a) the frozen corpus of the repository's .cue sources that parse, (b) mutants of corpus files under layout mutations that cannot change the token stream (blank lines, indentation, horizontal space where space already is, trailing spaces, explicit commas at line ends, CRLF) and comments in the admitted position classes (own line before a line, end of a line), 1-3 mutations each, (c) generated multi-line string/bytes literals (all quote forms, nesting depths, whitespace-only and over-indented lines), (d) programs of the C01 generator under the same mutations. Oracle: format.Source succeeds, its output parses, the normalised token streams of input and output are equal (commas dropped; string literals by class and unquoted value; interpolation parts modulo leading indentation; comments by text - every token and comment keeps its neighbours), and formatting the output again changes nothing. Second oracle on every input that passes the first: the syntax trees of input and output (parser with comments and resolution, internal/astinternal dump without positions, literals by class and value) are equal, so every comment is attached to the same node and every reference is bound to the same node. (e) -s (format.Simplify) on all streams and on generated programs in which quoted labels, identifiers, dynamic labels, lets and references of the same few names meet in nested scopes: the trees are equal after applying the documented simplifications (plain-identifier labels unquoted, `...`/`[string]: _`/`[_]: _` merged into one trailing `...`) to both, references still bind to the same nodes, -s is a fixpoint and plain fmt leaves its output alone, and a sample of input/output pairs is evaluated in worker processes and compared observationally. (f) option profiles (space indentation of width 2/3/4, UseSpaces(8), spaces+Simplify) on the mutant and literal streams: same tree, fixpoint under the same options. Non-trivial = distinct input with a comment or a multi-line literal."
 		c.Assume = []string{"cue/scanner in comment mode is the reader of both sides; literal.Unquote gives the value of a string literal", "files of the frozen corpus on which the pinned formatter already deviates are listed in corpus/c08_known.txt with their class (recorded findings)"}
 		if c.Replay != nil {
 			c.Inconclusive("replay: format the source stored in the violation file with cue fmt")
@@ -589,6 +589,10 @@ func init() {
 						report(stream, names, m, res)
 					} else if _, res := c8checkSimplify(m); res != nil {
 						report(stream, names, m, res)
+					} else if res := c8checkProfile(m, i); res != nil {
+						report(stream, names, m, res)
+					} else {
+						c.Count("option_profile_runs", 1)
 					}
 				}()
 			}
@@ -613,6 +617,10 @@ func init() {
 						report("literal", "generated", src, res)
 					} else if _, res := c8checkSimplify(src); res != nil {
 						report("literal", "generated", src, res)
+					} else if res := c8checkProfile(src, i); res != nil {
+						report("literal", "generated", src, res)
+					} else {
+						c.Count("option_profile_runs", 1)
 					}
 				}()
 			}
